@@ -1516,16 +1516,18 @@ func (pc *Context) ParseArguments(osenv *rsyncos.Env, args []string) error {
 			return errNotYetImplemented
 
 		case OPT_INFO:
-			if opts.noExit && wantsOutputHelp(pc.poptGetOptArg()) {
+			arg := pc.poptGetOptArg()
+			if opts.noExit && wantsOutputHelp(arg) {
 				return errExitOption("--info=help")
 			}
-			parseOutputWords(osenv, infoWords[:], opts.info[:], pc.poptGetOptArg(), USER_PRIORITY)
+			parseOutputWords(osenv, infoWords[:], opts.info[:], arg, USER_PRIORITY)
 
 		case OPT_DEBUG:
-			if opts.noExit && wantsOutputHelp(pc.poptGetOptArg()) {
+			arg := pc.poptGetOptArg()
+			if opts.noExit && wantsOutputHelp(arg) {
 				return errExitOption("--debug=help")
 			}
-			parseOutputWords(osenv, debugWords[:], opts.debug[:], pc.poptGetOptArg(), USER_PRIORITY)
+			parseOutputWords(osenv, debugWords[:], opts.debug[:], arg, USER_PRIORITY)
 
 		case OPT_USERMAP,
 			OPT_GROUPMAP,
